@@ -53,9 +53,7 @@ Qed.
 
 (* ---------------------------------------------------------------- the split at an interior parameter *)
 Section SplitAt.
-Variables (tol : R) (c : @curve R) (t : R).
-Notation p := (c_p c). Notation U := (c_U c). Notation P := (c_P c).
-Let n := length P.
+Variables (tol : R) (p : nat) (U : list R) (n : nat) (t : R).
 Hypothesis Usorted : sortedR U.
 Hypothesis HpP : (p < n)%nat.
 Hypothesis HlenU : length U = (n + p + 1)%nat.
@@ -69,38 +67,30 @@ Let k := find_span_linear Rops p U n t.
 Let s := find_multiplicity Rops tol t U.
 Let r := (p - s)%nat.
 Let U' := knot_insertion_kv U t k r.
-Let P' := knot_insertion Rops p U P t r s k.
 Let M := (k + r)%nat.
 Let m := (k - s)%nat.
 Let a0 := knR U 0.
 Let b0 := knR U (n + p).
 
 Lemma sc_k : (p <= k < n)%nat /\ knR U k <= t < knR U (k + 1).
-Proof. apply (k_spec tol c t HpP HlenU). pose proof Ht as H. unfold n in H. lra. Qed.
+Proof.
+  pose proof (find_span_linear_spec U t p n HpP ltac:(lia) ltac:(lra)) as H. cbv zeta in H. fold k in H.
+  destruct H as [H1 [H2 [H3|[H3 H4]]]].
+  - replace (k + 1)%nat with (S k) by lia. split; [exact H1|split; assumption].
+  - lra.
+Qed.
 
 Lemma sc_s : forall i, (k - s < i <= k)%nat -> knR U i = t.
-Proof. apply (s_spec tol c t Usorted HpP HlenU); [pose proof Ht as H; unfold n in H; lra|exact Hsep]. Qed.
+Proof.
+  pose proof (s_spec tol (mkC p U (repeat (@nil R) n)) t) as H. cbn [c_p c_U c_P] in H. rewrite repeat_length in H.
+  apply H; try assumption. lra.
+Qed.
 
 Lemma sc_Mm : M = (m + p)%nat.
 Proof. destruct sc_k as [Hk _]. unfold M, m, r. fold s in Hs. lia. Qed.
 
-Lemma sc_tc : insert_knot_curve Rops tol false c [Some t] [Z.of_nat r] = (mkC p U' P', false).
-Proof.
-  destruct sc_k as [Hk _]. fold s in Hs.
-  unfold insert_knot_curve. cbn [andb]. unfold parat, numat. cbn [nth]. rewrite Nat2Z.id.
-  unfold dir_prep. destruct (Nat.eqb_spec r 0) as [E|E].
-  - unfold U', P'. rewrite E, kv_zero, ki_zero by (fold n; lia). destruct c; reflexivity.
-  - cbn [andb]. reflexivity.
-Qed.
-
 Lemma sc_lenU' : length U' = (n + p + 1 + r)%nat.
 Proof. unfold U'. rewrite kv_length, HlenU. reflexivity. Qed.
-
-Lemma sc_lenP' : length P' = (n + r)%nat.
-Proof.
-  destruct sc_k as [Hk _]. fold s in Hs.
-  destruct (knot_insertion_frame Rops p U P t r s k) as [HL _]; try (fold n; unfold r; lia). exact HL.
-Qed.
 
 Lemma sc_U'nth i : knR U' i = if Nat.leb i k then knR U i else if Nat.leb i (k + r) then t else knR U (i - r).
 Proof. destruct sc_k as [Hk _]. unfold U'. apply knot_insertion_kv_nth. lia. Qed.
@@ -167,8 +157,6 @@ Qed.
 (* ---- the two knot lists before normalisation ---- *)
 Let kv1 := firstn (S M) U' ++ [t].
 Let kv2 := repeat t (S p) ++ skipn (S M) U'.
-Let P1 := firstn (m + 1) P'.
-Let P2 := skipn m P'.
 
 Lemma sc_Mlt : (S M < length U')%nat.
 Proof. destruct sc_k as [Hk _]. rewrite sc_lenU'. unfold M. lia. Qed.
@@ -195,12 +183,6 @@ Proof.
     + rewrite sc_kv1_lo by lia. apply sc_le_t. exact Hi.
     + assert (i = S M) by lia. subst i. rewrite sc_kv1_hi. lra.
 Qed.
-
-Lemma sc_P1_len : length P1 = (m + 1)%nat.
-Proof. destruct sc_k as [Hk _]. unfold P1. rewrite firstn_length, sc_lenP'. unfold m. lia. Qed.
-
-Lemma sc_P2_len : length P2 = (n + r - m)%nat.
-Proof. unfold P2. rewrite skipn_length, sc_lenP'. reflexivity. Qed.
 
 Lemma sc_kv2_len : length kv2 = S (p + (n + r - m)).
 Proof.
@@ -270,20 +252,16 @@ Proof. intro E. apply (f_equal (@length R)) in E. rewrite sc_kv1_len in E. discr
 Lemma sc_kv2_ne : kv2 <> [].
 Proof. intro E. apply (f_equal (@length R)) in E. rewrite sc_kv2_len in E. discriminate. Qed.
 
-(* [G] the split is not rejected and returns these two pieces *)
-Theorem split_curve_result : split_curve Rops tol c t = Ok (mkC p K1 P1, mkC p K2 P2).
+Lemma sc_setkv1 : set_kv Rops p kv1 (m + 1) = Ok K1.
 Proof.
-  destruct sc_k as [Hk _]. fold s in Hs.
-  unfold split_curve. rewrite sc_not_end. cbv zeta. unfold split_ks. fold n. fold k. fold s. fold r.
-  rewrite sc_tc. cbn [fst c_U c_P]. unfold split_knots. rewrite sc_lenP', sc_span'. cbn [fst snd].
-  fold kv1 kv2.
-  replace (k - p + 1 + r)%nat with (m + 1)%nat by (unfold m, r; lia).
-  replace (m + 1 - 1)%nat with m by lia. fold P1 P2.
-  rewrite (set_kv_sorted p kv1 (length P1) ltac:(rewrite sc_P1_len, sc_kv1_len, sc_Mm; lia) sc_kv1_sorted).
-  rewrite (normalize_nonempty kv1 sc_kv1_ne), sc_kv1_first, sc_kv1_last. cbn [res_bind].
-  rewrite (set_kv_sorted p kv2 (length P2) ltac:(rewrite sc_P2_len, sc_kv2_len; lia) sc_kv2_sorted).
-  rewrite (normalize_nonempty kv2 sc_kv2_ne), sc_kv2_first, sc_kv2_last. cbn [res_bind].
-  reflexivity.
+  rewrite (set_kv_sorted p kv1 (m + 1) ltac:(rewrite sc_kv1_len, sc_Mm; lia) sc_kv1_sorted).
+  rewrite (normalize_nonempty kv1 sc_kv1_ne), sc_kv1_first, sc_kv1_last. reflexivity.
+Qed.
+
+Lemma sc_setkv2 : set_kv Rops p kv2 (n + r - m) = Ok K2.
+Proof.
+  rewrite (set_kv_sorted p kv2 (n + r - m) ltac:(rewrite sc_kv2_len; lia) sc_kv2_sorted).
+  rewrite (normalize_nonempty kv2 sc_kv2_ne), sc_kv2_first, sc_kv2_last. reflexivity.
 Qed.
 
 (* ---- the knot lists as total functions ---- *)
@@ -364,6 +342,47 @@ Proof.
   unfold kn. f_equal. unfold m, r. lia.
 Qed.
 
+Section Net.
+Variable P : list (list R).
+Hypothesis HPn : length P = n.
+Let P' := knot_insertion Rops p U P t r s k.
+Let P1 := firstn (m + 1) P'.
+Let P2 := skipn m P'.
+
+Lemma sc_tc : insert_knot_curve Rops tol false (mkC p U P) [Some t] [Z.of_nat r] = (mkC p U' P', false).
+Proof.
+  destruct sc_k as [Hk _]. fold s in Hs.
+  unfold insert_knot_curve. cbn [andb]. unfold parat, numat. cbn [nth]. rewrite Nat2Z.id.
+  unfold dir_prep. cbn [c_p c_U c_P]. rewrite HPn. destruct (Nat.eqb_spec r 0) as [E|E].
+  - unfold U', P'. rewrite E, kv_zero, ki_zero by lia. reflexivity.
+  - cbn [andb]. reflexivity.
+Qed.
+
+Lemma sc_lenP' : length P' = (n + r)%nat.
+Proof.
+  destruct sc_k as [Hk _]. fold s in Hs.
+  destruct (knot_insertion_frame Rops p U P t r s k) as [HL _]; try (rewrite ?HPn; unfold r; lia). unfold P'. rewrite HL, HPn. reflexivity.
+Qed.
+
+Lemma sc_P1_len : length P1 = (m + 1)%nat.
+Proof. destruct sc_k as [Hk _]. unfold P1. rewrite firstn_length, sc_lenP'. unfold m. lia. Qed.
+
+Lemma sc_P2_len : length P2 = (n + r - m)%nat.
+Proof. unfold P2. rewrite skipn_length, sc_lenP'. reflexivity. Qed.
+
+(* [G] the split is not rejected and returns these two pieces *)
+Theorem split_curve_result : split_curve Rops tol (mkC p U P) t = Ok (mkC p K1 P1, mkC p K2 P2).
+Proof.
+  destruct sc_k as [Hk _]. fold s in Hs.
+  unfold split_curve. cbn [c_p c_U c_P]. rewrite sc_not_end. cbv zeta. unfold split_ks. rewrite HPn. fold k. fold s. fold r.
+  rewrite sc_tc. cbn [fst c_U c_P]. unfold split_knots. rewrite sc_lenP', sc_span'. cbn [fst snd].
+  fold kv1 kv2.
+  replace (k - p + 1 + r)%nat with (m + 1)%nat by (unfold m, r; lia).
+  replace (m + 1 - 1)%nat with m by lia. fold P1 P2.
+  rewrite sc_P1_len, sc_setkv1. cbn [res_bind]. rewrite sc_P2_len, sc_setkv2. cbn [res_bind].
+  reflexivity.
+Qed.
+
 Section Dim.
 Variable dim : nat.
 Hypothesis Hdim : forall i, (i < n)%nat -> length (getp P i) = dim.
@@ -371,7 +390,7 @@ Hypothesis Hdim : forall i, (i < n)%nat -> length (getp P i) = dim.
 Lemma sc_pres cc x : (cc < dim)%nat -> curve_pt p U' P' cc x = curve_pt p U P cc x.
 Proof.
   intros Hc. destruct sc_k as [Hk Hk1]. fold s in Hs.
-  unfold U', P'. apply (insertN_model_preserves_curve p U P t s k dim); auto; try (fold n; lia); try exact sc_s; try (unfold r; lia).
+  unfold U', P'. apply (insertN_model_preserves_curve p U P t s k dim); rewrite ?HPn; auto; try lia; try exact sc_s; try (unfold r; lia).
 Qed.
 
 
@@ -420,6 +439,7 @@ Proof.
   - exact Hx.
 Qed.
 End Dim.
+End Net.
 End SplitAt.
 
 (* ---------------------------------------------------------------- the pieces, named *)
@@ -452,7 +472,11 @@ Definition split_ok_hyps (tol : R) (c : @curve R) (t : R) (dim : nat) : Prop :=
 (* [G] an interior split is never rejected *)
 Theorem split_curve_succeeds tol c t : split_geom_hyps tol c t ->
   split_curve Rops tol c t = Ok (split_left tol c t, split_right tol c t).
-Proof. intros (H1 & H2 & H3 & H4 & H5 & H6). exact (split_curve_result tol c t H1 H2 H3 H4 H5 H6). Qed.
+Proof.
+  destruct c as [p U P]. intros (H1 & H2 & H3 & H4 & H5 & H6). cbn [c_p c_U c_P] in *.
+  unfold split_left, split_right. cbn [c_p c_U c_P].
+  apply (split_curve_result tol p U (length P) t); try assumption. reflexivity.
+Qed.
 
 (* shape of the two pieces in terms of the original knots: k = span of t, s = its multiplicity *)
 Theorem split_left_shape tol c t : split_geom_hyps tol c t ->
@@ -464,10 +488,11 @@ Theorem split_left_shape tol c t : split_geom_hyps tol c t ->
   forall i, (i <= S (k + (p - s)))%nat ->
     knR (c_U (split_left tol c t)) i = ((if Nat.leb i k then knR U i else t) - knR U 0) / (t - knR U 0).
 Proof.
-  intros (H1 & H2 & H3 & H4 & H5 & H6). cbv zeta. split; [reflexivity|]. split; [|split].
-  - apply (sc_P1_len tol c t); assumption.
-  - apply (sc_K1_len tol c t); assumption.
-  - apply (sc_K1_nth tol c t); assumption.
+  destruct c as [p U P]. intros (H1 & H2 & H3 & H4 & H5 & H6). cbn [c_p c_U c_P] in *. cbv zeta.
+  split; [reflexivity|]. split; [|split].
+  - apply (sc_P1_len tol p U (length P) t); try assumption. reflexivity.
+  - apply (sc_K1_len tol p U (length P) t); assumption.
+  - apply (sc_K1_nth tol p U (length P) t); assumption.
 Qed.
 
 Theorem split_right_shape tol c t : split_geom_hyps tol c t ->
@@ -478,15 +503,15 @@ Theorem split_right_shape tol c t : split_geom_hyps tol c t ->
   forall i, (i < S (p + (n + p - k)))%nat ->
     knR (c_U (split_right tol c t)) i = ((if Nat.leb i p then t else knR U (i + k - p)) - t) / (knR U (n + p) - t).
 Proof.
-  intros (H1 & H2 & H3 & H4 & H5 & H6). cbv zeta.
-  destruct (sc_k tol c t H2 H3 H4) as [Hk _].
-  assert (E : (length (c_P c) + (c_p c - find_multiplicity Rops tol t (c_U c)) -
-               (find_span_linear Rops (c_p c) (c_U c) (length (c_P c)) t - find_multiplicity Rops tol t (c_U c)))%nat
-              = (length (c_P c) + c_p c - find_span_linear Rops (c_p c) (c_U c) (length (c_P c)) t)%nat) by lia.
+  destruct c as [p U P]. intros (H1 & H2 & H3 & H4 & H5 & H6). cbn [c_p c_U c_P] in *. cbv zeta.
+  assert (Hk : (p <= find_span_linear Rops p U (length P) t < length P)%nat) by (apply (sc_k tol p U (length P) t); assumption).
+  assert (E : (length P + (p - find_multiplicity Rops tol t U) -
+               (find_span_linear Rops p U (length P) t - find_multiplicity Rops tol t U))%nat
+              = (length P + p - find_span_linear Rops p U (length P) t)%nat) by lia.
   split; [reflexivity|]. split; [|split].
-  - rewrite <- E. apply (sc_P2_len tol c t); assumption.
-  - rewrite <- E. apply (sc_K2_len tol c t); assumption.
-  - rewrite <- E. apply (sc_K2_nth tol c t); assumption.
+  - rewrite <- E. apply (sc_P2_len tol p U (length P) t); try assumption. reflexivity.
+  - rewrite <- E. apply (sc_K2_len tol p U (length P) t); assumption.
+  - rewrite <- E. apply (sc_K2_nth tol p U (length P) t); assumption.
 Qed.
 
 (* [G] split_pieces_coincide: both pieces reproduce the original under the affine maps of their normalised knot vectors:
@@ -500,10 +525,13 @@ Theorem split_pieces_coincide tol c t dim : split_ok_hyps tol c t dim ->
 Proof.
   intros H. pose proof H as ((H1 & H2 & H3 & H4 & H5 & H6) & H7).
   exists (split_left tol c t), (split_right tol c t).
-  split; [apply (split_curve_succeeds tol c t (proj1 H))|]. split; [reflexivity|]. split; [reflexivity|]. split.
-  - intros cc x Hc Hx. exact (sc_left tol c t H1 H2 H3 H4 H5 H6 dim H7 cc x Hc Hx).
-  - intros cc x Hc Hx. replace (length (c_U c) - 1)%nat with (length (c_P c) + c_p c)%nat by lia.
-    exact (sc_right tol c t H1 H2 H3 H4 H5 H6 dim H7 cc x Hc Hx).
+  split; [apply (split_curve_succeeds tol c t (proj1 H))|]. split; [reflexivity|]. split; [reflexivity|].
+  destruct c as [p U P]. cbn [c_p c_U c_P] in *. split.
+  - intros cc x Hc Hx. unfold split_left. cbn [c_p c_U c_P].
+    apply (sc_left tol p U (length P) t) with (dim := dim); try assumption. reflexivity.
+  - intros cc x Hc Hx. replace (length U - 1)%nat with (length P + p)%nat by lia.
+    unfold split_right. cbn [c_p c_U c_P].
+    apply (sc_right tol p U (length P) t) with (dim := dim); try assumption. reflexivity.
 Qed.
 
 (* the same for whatever split_curve returned *)
